@@ -156,6 +156,31 @@ def run(ctx):
             if f[2] != "-" else []
         if marks != [want]:
             ctx.oracle_fail("the time pointer after %r in a program is not the documented tick count" % s_, src, str(marks), str([want]), input_text=src)
+    # length literals inside expressions: `!L` is len(L) at the time base in force, an omitted part being a quarter note
+    # (whatever `l` says at that moment)
+    lits = []
+    for _ in range(150 if ctx.tier == "quick" else 6000):
+        h, pz, tb, _d = gen_expr(rng)
+        lits.append((h, pz, tb, tb))
+    spec = ctx.model(["len_spec\t%s\t%s\t%d\t%d" % e for e in lits])
+    progs = []
+    for e, r in zip(lits, spec):
+        if r == "NOTWF" or r.startswith("BAD") or "\t" not in r:
+            continue
+        txt, want = r.split("\t")
+        s_ = vlib.dec_text(txt)
+        if not s_ or s_[0] in "-+" or re.search(r"\d{7,}", s_) or not (48 <= e[2] <= 32767) or not (0 <= int(want) < 2 ** 20):
+            continue
+        lcmd = rng.choice(["", "l8 ", "l1 ", "l%7 ", "l16 c "])
+        progs.append(("TimeBase(%d) %sPRINT(!%s)" % (e[2], lcmd, s_), want, s_))
+    got = ctx.impl(["compile\t%s\t0" % vlib.enc_text(p[0]) for p in progs], stall=15)
+    for (src, want, s_), g in zip(progs, got):
+        ctx.count("length_literal", src)
+        f = g.split("\t")
+        log = vlib.dec_text(f[1]) if len(f) > 1 else g
+        m = re.search(r"\[PRINT\]\(\d+\) (-?\d+)\s*$", log)
+        if not m or m.group(1) != want:
+            ctx.oracle_fail("the length literal !%s in an expression is not the documented tick count" % s_, src, log[:200], want, input_text=src)
     # junk strings: correspondence only
     junk = [(gen_junk(rng), rng.choice(TB_POOL), rng.choice([0, 48, 96, 100])) for _ in range(n // 2)]
     lines = ["calc_length\t%s\t%d\t%d" % (vlib.enc_text(s), tb, d) for s, tb, d in junk]
